@@ -146,6 +146,9 @@ func c06Run(c core.Case) *core.Result {
 	var reused sam.Record
 	for i := 0; i < n && len(r.Viol) < 6; i++ {
 		rec := gen.RandRec(rng, gen.RecOpts{NRefs: nref, SAMSafe: true, NoBigCig: rng.Intn(30) != 0, MaxSeq: 200}, i)
+		if rng.Intn(12) == 0 {
+			gen.PadTo(&rec, []int{4095, 4096, 4097}[rng.Intn(3)])
+		}
 		recs = append(recs, rec)
 		lr, err := toRecord(rec, h)
 		if err != nil {
@@ -234,12 +237,17 @@ func c06Run(c core.Case) *core.Result {
 			r.Violate("bam|read", "bam.NewReader: %v", err)
 			return r
 		}
-		for i, rec := range recs {
+		var kept []*sam.Record
+		for i := range recs {
 			got, err := br.Read()
 			if err != nil {
 				r.Violate("bam|read", "record %d: %v", i, err)
 				break
 			}
+			kept = append(kept, got)
+		}
+		for i, got := range kept {
+			rec := recs[i]
 			lr, _ := toRecord(rec, h)
 			a, e1 := lr.MarshalSAM(0)
 			b, e2 := got.MarshalSAM(0)
